@@ -12,7 +12,9 @@ B = BLOCK['C14']
 TIE = {'core.PreConverted / PostConverted / FixedSeatCount / Conditioned / ByConstituency / PreApportioned / RemovedApportionment / '
        'ByParty / MultistageDistributor / TieBreaking / PartyListEvaluator (evaluate methods)': 'correspondence (extracted run_impl with the '
        'leaf evaluators and converters answered by the real objects through an oracle table)',
-       'inspect.signature of every evaluate() / core.accepts_seats / accepts_prev_gains': 'compared with Wrappers.sig_of / acc_seats / acc_prev on every node of every generated tree',
+       'inspect.signature of every evaluate() / core.accepts_seats / accepts_prev_gains': 'translator (tools/py2v.py part 5: evaluate parameter lists and the accepts_seats '
+       'attribute read from the source) + Props/GenTie_Signatures_C14.v (Gen signatures = Wrappers.sig_of / attr_of for every wrapper tree); and compared with '
+       'Wrappers.sig_of / acc_seats / acc_prev on every node of every generated tree',
        'Python argument binding': 'Wrappers.bind compared with CPython on generated signatures and calls',
        'TieBreaking._replace_sel_ties / _replace_distr_ties, convert.VoteTotals / SubsettedVotes, util.add_dict_to_dict': 'correspondence (direct unit streams)'}
 RULE = ('corpus (zero-seat constituencies, omitted seat counts, seat dictionary vs fixed apportioner, PreApportioned around generic wrappers); '
@@ -33,6 +35,9 @@ PARTIAL = ['UnusedVotesDistributor, VotingSystem, ByConstituency preselector, no
            'C14_compose is proved for faithful trees (inspect-based dispatch = what the inspected part takes); the excluded class is a known finding']
 TRUSTED = ['harness/props/c14_trees.py: encoding of Python values, the by-hand composition used as the declarative clause']
 EXTRA_PROOF_FILES = []
+# the hand-written signature table of Model/Wrappers.v (sig_of / lsig / attr_of) IS the one regenerated from the source
+# (tools/py2v.py part 5 -> Gen/Signatures.v): Props/GenTie_Signatures_C14.v; fallback = the inspect comparison on every node (explore_trees)
+GEN_TIES = {'Signatures': 'Props/GenTie_Signatures_C14.v'}
 
 
 # ---------------------------------------------------------------- running one batch of cases
